@@ -1,32 +1,100 @@
 (* Props/C11.v — A client abort ends exactly the aborted request; the connection stays usable.
-   Only statements (interim: request-parser side; connection side is added as Async/ConnReads.v completes). *)
-From FV Require Import Base.Bytes Gen.Generated Codec.Bodies Parser.ReqModel Parser.ReqWire Parser.ReqTargets Parser.ReqRecords Parser.ReqFinal.
+   Only statements.  Request-parser side: Parser/ReqRecords.v; connection side: Async/ConnReads.v, Async/ConnWrites.v. *)
+From FV Require Import Base.Bytes Gen.Generated Parser.ReqModel Parser.ReqTargets Parser.StreamModel Parser.AbsStream Parser.StreamSpec Parser.StreamRefine Parser.StreamInv Codec.Bodies Parser.ReqWire Parser.ReqRecords Parser.ReqFinal Parser.AbortProofs Async.Conn Async.ConnWrites Async.ConnTotal Async.ConnReads Async.ConnLoop.
 
-(* an AbortRequest for the request in progress during Params: consumed entirely, exactly one
-   EndRequest(RequestComplete, 0, id) emitted, parser back to Header (no request is produced, so no
-   handler can be invoked for it); an abort for any other id is skipped without reply *)
-Theorem C11_abort_in_params : forall (norm : bytes -> bytes) (maxc : N) i (r : rcd),
-  state_ok (Params i 0 0) -> state_small (Params i 0 0) -> rcd_ok r -> rt r = RT_AbortRequest ->
-  exists s'', drive_all norm maxc (Params i 0 0) (enc_rcd r) =
-     DOk [] s'' (if rid r =? r_id (ireq i) then end_record 0 PS_RequestComplete (r_id (ireq i)) else []) /\
-     ReqRecords.settle s'' = (if rid r =? r_id (ireq i) then Header else Params i 0 0).
-Proof.
-  intros norm maxc i r Hs Hsm Hr Ht.
-  pose proof (rec_step_settle norm maxc (F_S1 norm) (F_S2 norm) (Params i 0 0) r (InParams (r_id (ireq i))) Hs Hsm eq_refl Hr) as H.
-  cbn [ReqRecords.settle rec_step] in H.
-  assert (Hk : Codec.Header.known_type (rt r) = true) by (rewrite Ht; reflexivity).
-  rewrite Hk in H. cbn [negb] in H. rewrite Ht in H.
-  change (RT_AbortRequest =? RT_Params) with false in H. cbn [andb] in H.
-  change (RT_AbortRequest =? RT_AbortRequest) with true in H. cbn [andb] in H.
-  destruct (rid r =? r_id (ireq i)) eqn:E.
-  - destruct H as [s'' [H1 [H2 _]]]. exists s''. split; [|exact H2].
-    rewrite H1. unfold reply_for. rewrite Hk, Ht. cbn [negb].
-    change (RT_AbortRequest =? RT_GetValues) with false. cbn [andb].
-    change (RT_AbortRequest =? RT_BeginRequest) with false. cbn [andb].
-    change (RT_AbortRequest =? RT_AbortRequest) with true. rewrite E. reflexivity.
-  - destruct H as [s'' [H1 [H2 _]]]. exists s''. split; [|exact H2].
-    rewrite H1. unfold reply_for. rewrite Hk, Ht. cbn [negb].
-    change (RT_AbortRequest =? RT_GetValues) with false. cbn [andb].
-    change (RT_AbortRequest =? RT_BeginRequest) with false. cbn [andb].
-    change (RT_AbortRequest =? RT_AbortRequest) with true. rewrite E. reflexivity.
-Qed.
+(* ==== pinned from the proof files (tools/write_props.py) ==== *)
+
+(* during Params: an AbortRequest for the request in progress is consumed entirely, exactly one
+   EndRequest(RequestComplete, 0, id) is emitted and the parser is back at Header (no request is produced, so
+   no handler can be invoked for it); an abort for any other id is skipped without reply *)
+Theorem C11_abort_in_params :
+  forall (norm : bytes -> bytes) (maxc : N) (i : inner) (r : rcd),
+  state_ok (Params i 0 0) ->
+  state_small (Params i 0 0) ->
+  rcd_ok r ->
+  rt r = RT_AbortRequest ->
+  exists s'' : state,
+    drive_all norm maxc (Params i 0 0) (enc_rcd r) =
+    DOk [] s'' (if rid r =? r_id (ireq i) then end_record 0 PS_RequestComplete (r_id (ireq i)) else []) /\
+    settle s'' = (if rid r =? r_id (ireq i) then Header else Params i 0 0).
+Proof. exact abort_in_params. Qed.
+
+(* later: a handler read returns ConnectionAborted exactly when the parser stands at an AbortRequest header of
+   this request *)
+Theorem C11_read_fails_with_aborted :
+  forall (maxc : N) (fuel : nat) (dest : option N) (r : rstate) (w : world) (r' : rstate) (w' : world),
+  pinv (rsp r) ->
+  bytes_ok (remaining w) ->
+  (length (wscript w) + length (remaining w) + 2 <= fuel)%nat ->
+  poll_input maxc fuel dest r w = (PReady (inr EK_Aborted), r', w') -> err_at (abs (rsp r')) EAbortRequest.
+Proof. exact poll_input_aborted. Qed.
+
+(* the error repeats: every later read reports it again (or the error of a failing flush), never touches the
+   transport's read side, never suspends for good *)
+Theorem C11_abort_sticky :
+  forall (maxc : N) (e : perr) (fuel : nat) (dest : option N) (r : rstate) (w : world),
+  pinv (rsp r) ->
+  bytes_ok (remaining w) ->
+  err_at (abs (rsp r)) e ->
+  match await_input maxc fuel dest r w with
+  | Ok (res, r') w' =>
+      remaining w' = remaining w /\
+      rscript w' = rscript w /\
+      pinv (rsp r') /\
+      err_at (abs (rsp r')) e /\
+      (poll_parses dest r = true ->
+       exists k : N, res = inr k /\ (k = perr_kind e \/ k = EK_WriteZero \/ k = EK_Transport)) /\
+      (poll_parses dest r = false -> w' = w /\ (exists x : N * bytes, res = inl x))
+  | Halt o _ => o = OFuel
+  end.
+Proof. exact await_input_sticky. Qed.
+
+(* input delivered before the error is a prefix of what the client sent (the conservation law of one poll; for
+   errors K(before) = dl ++ K(after) with dl the bytes handed over by that call) *)
+Theorem C11_prefix_before_error :
+  forall (maxc : N) (fuel : nat) (dest : option N) (r : rstate) (w : world) (p : pres (N * bytes + N))
+    (r' : rstate) (w' : world),
+  pinv (rsp r) ->
+  bytes_ok (remaining w) ->
+  (length (wscript w) + length (remaining w) + 2 <= fuel)%nat ->
+  poll_input maxc fuel dest r w = (p, r', w') ->
+  exists dl : bytes,
+    acct maxc [] r w dl r' w' /\
+    pi_case maxc dest dl r p r' w' /\
+    rwriteable r' = rwriteable r || poll_parses dest r && is_inl p && is_final_stream r.
+Proof. exact poll_input_reads. Qed.
+
+(* close() after an abort: record_boundary returns at once at the abort header and ignores the abort error *)
+Theorem C11_boundary_ignores_abort :
+  forall (maxc : N) (f : nat) (new : bytes) (r : rstate) (w : world) (p' : sp) (s : status),
+  pinv (rsp r) ->
+  bytes_ok new ->
+  len new <= sinput_space (rsp r) ->
+  sparse maxc (rsp r) new None = StErr p' EAbortRequest s ->
+  boundary_loop maxc (S f) new r w =
+  Ok (None, {| rsp := p'; rwriteable := rwriteable r; rlock := rlock r |}) w /\
+  err_at (abs p') EAbortRequest.
+Proof. exact boundary_loop_abort. Qed.
+
+(* ... so close writes exactly one EndRequest with the given status (ABORT unless the handler chose its own)
+   and, with KeepConn, returns the connection for reuse: the reuse law of C07 *)
+Theorem C11_one_endrequest_and_reuse :
+  forall (maxc : N) (r1 : rstate) (disc code : N) (w1 : world) (x : parser + N) 
+    (w' : world) (p2 : sp) (r3 : rstate) (w2 : world) (ep : bytes),
+  close_tail maxc r1 disc code w1 = Ok x w' ->
+  set_stream (rsp r1) None = SetOk p2 ->
+  record_boundary maxc {| rsp := p2; rwriteable := rwriteable r1; rlock := rlock r1 |} w1 =
+  Ok (None, r3) w2 ->
+  epilogue (r_id (sreq (rsp r3))) disc code (if rwriteable r1 then ROLE_OUTPUT_STREAMS else []) = Some ep ->
+  let total := output_buffer (rsp r3) ++ ep in
+  let keep := N.land (r_flags (sreq (rsp r3))) FLAG_KeepConn = FLAG_KeepConn in
+  match x with
+  | inl rp => wlog w' = wlog w1 ++ total /\ keep /\ into_request_parser (close_p4 r3) = ConvOk rp
+  | inr k =>
+      wlog w' = wlog w1 ++ total /\ k = EK_Reset /\ ~ keep \/
+      (k = EK_WriteZero \/ k = EK_Transport) /\
+      ~ no_fault (wscript w2) /\
+      (exists b1 b2 : list N, total = b1 ++ b2 /\ b2 <> [] /\ wlog w' = wlog w1 ++ b1)
+  end.
+Proof. exact close_reuse_iff. Qed.
+
